@@ -58,7 +58,8 @@ def cases(draw, tier):
             "check_len": draw(st.integers(1, 6)), "indel": draw(st.booleans()),
             "heap": draw(st.sampled_from([1, 10, 1000, 1000, 10 ** 9 if kind in ("walk", "edit1", "spaced")
                                           else 10 ** 5, "inf" if kind in ("walk", "edit1") else 1000])),
-            "salt": draw(st.integers(0, 2 ** 16))}
+            "salt": draw(st.integers(0, 2 ** 16)),
+            "layout": draw(st.sampled_from([None, None, None, "F", "strided", "offset", "int32"]))}
 
 
 def evaluate(case):
@@ -87,7 +88,9 @@ def evaluate(case):
     labels = ["walk" if walk else "not_walk", "check:" + kind, "indel" if case["indel"] else "no_indel",
               "heap=%g" % heap, "k=%d" % k]
     result, lookups, _ = repairing.run_repair(rows, k, start, text, check=check, has_indel=case["indel"],
-                                              heap_size=heap)
+                                              heap_size=heap, layout=case.get("layout"))
+    if case.get("layout"):
+        labels.append("layout:" + case["layout"])
     what = "repair_dna(%r, k=%d, start=%d, check=%r, has_indel=%s, heap_size=%g)" \
            % (text, k, start, check, case["indel"], heap)
     if isinstance(result, str):
